@@ -481,3 +481,59 @@ def c23(pid, tier):
                           traces_validated=nval, violations=1 if rc == 1 else 0, known=known)
     print(f"[{pid}] {sum(1 for q in qs if q.verdict in ('HOLDS', 'REACHABLE'))}/{len(qs)} queries discharged, wall {time.time() - t0:.1f}s, exit {rc}")
     return rc
+
+
+# ----------------------------------------------------------------------------- C16: padding-template validators and their call sites from MIR
+@register("C16")
+def c16(pid, tier):
+    import csxlib
+    import tplcheck
+    import mirpool
+    from registry import finish
+    t0 = time.time()
+    csxlib.build_emitter()
+    K = 3 if tier == "quick" else 8
+    try:
+        qs, info = tplcheck.run(K)
+    except mirpool.Unsupported as e:
+        print(f"INCONCLUSIVE: the MIR of a template validator / constructor uses a construct the executor does not model: {e}")
+        return 2
+    nval, vfails = tplcheck.validate_translation(csxlib.EMIT_BIN, pid)
+    print(f"[{pid}] replay oracle vs REAL constructors (PrivateBatchProver::new / PublicBatchProver::new): {nval} templates agree, {len(vfails)} disagree", flush=True)
+    inconcl = ["replay-oracle validation: " + f for f in vfails]
+    replays = {}
+    for qi, q in enumerate(qs):
+        print(f"  {q.name[:170]:170s} {q.verdict:10s} {q.secs:6.2f}s", flush=True)
+        if q.verdict != "CEX":
+            continue
+        rep = (False, "", "no replayable instance")
+        if getattr(q, "validator", None):
+            for k, (ex, S, m) in enumerate(q.cex[:6]):
+                sc = tplcheck.leaf_scenario(ex, m) if q.validator == "verify_dummy_leaf_template" else tplcheck.priv_scenario(ex, m)
+                rep = tplcheck.replay(pid, f"{qi}.{k}", sc, csxlib.EMIT_BIN)
+                if rep[0]:
+                    break
+        elif getattr(q, "caller", None):
+            # a constructor that can return Ok without a successful validation: hand it a template that must be refused
+            if q.caller.endswith("::new"):
+                sc = ({"kind": "leaf", "n": 1, "pis": [5] + [0] * 20, "tamper": False, "tamper_index": 4} if q.which == "verify_dummy_leaf_template"
+                      else {"kind": "priv", "n": 1, "pis": [2, 0, 0, 1] + [0] * 25, "tamper": False, "tamper_index": 7})
+                rep = tplcheck.replay(pid, f"{qi}.0", sc, csxlib.EMIT_BIN)
+            else:
+                rep = (False, "", "this entry point needs artifact bytes of the canonical circuits; no driver for it")
+        replays[q.name] = (rep[0], rep[1], q.name + "; " + rep[2])
+
+    class Sess:
+        results = qs
+    rc, known = finish(pid, qs, replays, inconcl)
+    csxlib.write_evidence(pid, tier, t0, [Sess], ["wormhole_aggregator::private_batch::prover::verify_dummy_leaf_template", "wormhole_aggregator::public_batch::prover::verify_dummy_private_batch_template",
+                                                  "the six functions that accept a template: " + ", ".join(c[0] for c in tplcheck.CALLERS)],
+                          {"validators": f"every MIR path; parsed public inputs fully symbolic (integers at their declared widths, digests of an uninterpreted sort); exit-slot lists of length <= {K}",
+                           "call_sites": "over-approximation: every unknown call returns an arbitrary value, every Result an arbitrary outcome; claim = no Ok return without a successful validator call",
+                           "outside": "what the parsers accept and that they return the proof's own fields (C24); that the verifier handed in is the pinned one (C17); longer slot lists; "
+                                      "a NEW constructor that takes a template (the list of six is fixed in native/tplcheck.py)", "encoding": info},
+                          ["stubs listed in native/mirtpl.py", "nightly rustc's MIR is the program analysed", "z3 verdicts"],
+                          extra={"states": sum(v.get("paths", 0) for v in info.values()), "transitions": len(qs)},
+                          traces_validated=nval, violations=1 if rc == 1 else 0, known=known)
+    print(f"[{pid}] {sum(1 for q in qs if q.verdict in ('HOLDS', 'REACHABLE'))}/{len(qs)} queries discharged, wall {time.time() - t0:.1f}s, exit {rc}")
+    return rc
